@@ -62,7 +62,7 @@ func (g *gen) bulkElements(ledgerName, user string, targets []uint64, n int, par
 
 func init() {
 	register(Profile{Property: "C32", Name: "bulk", Gen: func(r *RNG, seed uint64, tier string) (*Scenario, *ExploreCfg) {
-		sc := &Scenario{Property: "C32", Profile: "bulk", Knobs: randomKnobs(r), Checks: []string{"logs-match-ops", "replay", "bulk"}, Params: map[string]string{}}
+		sc := &Scenario{Property: "C32", Profile: "bulk", Knobs: randomKnobs(r), Checks: []string{"logs-match-ops", "replay", "bulk", "events"}, Params: map[string]string{}}
 		g := &gen{r: r, sc: sc}
 		sc.Setup = g.baseSetup("l1", "100", 4)
 		nc := 1 + r.Intn(2)
